@@ -244,6 +244,9 @@ class ShardCtx:
             if ctx.is_excluded(sig):
                 ctx.stats.excluded += 1
                 return
+            t_case = time.time()
+            if os.environ.get("VF_TRACE"):
+                sys.stderr.write("start %s\n" % json.dumps(spec, default=repr)[:1500])
             try:
                 res = case_fn(spec)
             except Violation as v:
@@ -258,6 +261,9 @@ class ShardCtx:
             except Inconclusive:
                 ctx.stats.inconclusive += 1
                 return
+            finally:
+                if os.environ.get("VF_TRACE"):
+                    sys.stderr.write("case %.2fs %s\n" % (time.time() - t_case, json.dumps(spec, default=repr)[:200]))
             ctx.stats.record(spec, res)
 
         try:
